@@ -1760,6 +1760,19 @@ fn main() {
                 for _ in 0..nmut {
                     mutate_text(&mut r2, &mut lines, m.n_darts() as u64);
                 }
+                // whatever the mutations did to the section structure, the META section only keeps small counts
+                // (a count of 2^32 makes the builder allocate 32 GB: a resource failure, not a parsing outcome)
+                let mut in_meta = false;
+                for l in &mut lines {
+                    let t = l.trim();
+                    if t.starts_with('[') {
+                        in_meta = t.to_ascii_lowercase().starts_with("[meta");
+                    } else if in_meta {
+                        let toks: Vec<String> =
+                            l.split_whitespace().map(|x| if x.parse::<u64>().is_ok_and(|v| v > 100_000) { "7".to_string() } else { x.to_string() }).collect();
+                        *l = toks.join(" ");
+                    }
+                }
                 let text = lines.join("\n") + "\n";
                 let (cls, built) = build_from_text(&text, "p");
                 let mut case = format!("{tag}{i}");
